@@ -30,6 +30,9 @@ def adversarial_key(rng, plen):
         return ch * L if rng.random() < 0.6 else (ch * L).decode("latin-1") if ch == b"k" else ch * L
     if r < 0.42:
         s = rng.choice(["é", "☃", "clé", "ключ", "k v", "k\u0085", "日本語", "a b", "a\tb", "k\r\nget x", " "])
+        if rng.random() < 0.35:
+            # spellings that are not in Unicode normal form C: the key is the code points given
+            s = rng.choice(["cafe\u0301", "\u212a1", "\u1100\u1161", "q\u037e", "e\u0301" * 84, "\u2126hm"])
         return s
     # a short key with one byte of a chosen class at a chosen position
     n = rng.choice([1, 2, 3, 4, 6])
@@ -209,7 +212,18 @@ class C02(Prop):
             # legal-but-unusual event: the write is interrupted (EINTR) after part of the request has left;
             # whatever reaches the server must still be (a prefix of) the intended request, never a re-sent mix
             steps[0]["faults"] = [{"at": ["sendall", 0], "kind": "eintr", "sent": rng.choice([1, 3, 6, 12, 25])}]
-        if stack != "hash" and rng.random() < 0.12:
+        if stack == "client" and rng.random() < 0.06:
+            # a multi-key store rejected half-way (a legal key first, then an illegal one) followed by an ordinary
+            # store on the same client: the second request is the second call's command and nothing more
+            bad = adversarial_key(rng, plen)
+            scn["steps"] = [{"t": "call", "m": "set_many", "a": [E({rng.choice(good): b"first", bad: b"x"})],
+                             "k": {"noreply": rng.choice([True, False])}, "tag": "prelude"},
+                            {"t": "call", "m": rng.choice(["set", "add", "set_many"]), "a": [], "k": {}, "tag": "probe"},
+                            steps[1]]
+            pm = scn["steps"][1]["m"]
+            scn["steps"][1]["a"] = [E({b"g3": b"second"})] if pm == "set_many" else [E(b"g3"), E(b"second")]
+            scn["steps"][1]["k"] = {"noreply": rng.choice([True, False])}
+        elif stack != "hash" and rng.random() < 0.12:
             # the same token used once as a stats / cache_memlimit argument and once as a key (two call sites
             # that validate through the same helper with different prefixes), in either order
             tok = rng.choice(["items", "slabs", "settings", b"sizes", "64", b"128"])
